@@ -34,12 +34,24 @@ for sig in ["returned buffer holds same:Op(A,A), want same:Op(A,B)", "returned b
     for path in ["raw", "iter"]:
         finding(["C07","C11"], "M2", "tensor.(StdEng).*[reuse,same,%s,R=B]" % path, ALIAS + " (comparisons with same-type result)", sig, 45)
 
+# ---- engine S (index / shape) ---------------------------------------------------------------
+finding(["C02","C13"], "S5", "tensor.(*AP).S",
+        "AP.S rounds the stepped length up only for i > 0: a (5,2) tensor sliced [0:5:2] has shape (2,2) instead of (3,2) (two rows of the pinned shape table expect it, so it cannot be repaired without editing tests)",
+        "LEN = ((END - START) / STEP) ; if ((((END - START) % STEP) > 0) && (I > 0)) { LEN = (LEN + 1) } ; if (0 >= LEN) { LEN = 1 } | LEN = (END - START)", 2)
+finding(["C02","C13"], "S5", "tensor.(Shape).S",
+        "Shape.S never rounds the stepped length up: Shape{4,5}.S(nil, S(0,5,2)) = (4,2) while slicing the tensor gives (4,3)",
+        "LEN = ((END - START) / STEP) ; if (0 >= LEN) { LEN = 1 } | LEN = (END - START)", 3)
+finding(["C02","C13"], "S5", "AP.S~Shape.S",
+        "the shape-only and the access-pattern slice calculators disagree (consequence of findings 2 and 3)",
+        "LEN = ((END - START) / STEP) ; if ((((END - START) % STEP) > 0) && (I > 0)) { LEN = (LEN + 1) } ; if (0 >= LEN) { LEN = 1 } | LEN = (END - START) <> LEN = ((END - START) / STEP) ; if (0 >= LEN) { LEN = 1 } | LEN = (END - START)", 3)
+
 # ---- engine L (layout predicates) ------------------------------------------------------------
 finding(["C12","C16","C07","C06","C11"], "L0", "tensor.prepDataUnary#useIter",
         "prepDataUnary has no data-order term: Neg(colA, WithIncr(rowZeros)) adds raw column-major data into a row-major buffer (non-incr reuse is compensated by handleFuncOpts giving reuse the operand's order)",
         "rows 12,20 of riA,riR,nnR,colA,colR", 41)
 
 FIXED = [
+ {"property":"C01","commit":"a1a5269","rule":"S1","key":"tensor.Ltoi#loop","what":"fixed: property=C01 a1a5269 Ltoi accepted negative coordinates: At(1,-1) on a (3,3) tensor returned element 2, At(-1,2) panicked (DESIGN finding 1)"},
  {"property":"C12","commit":"f9c3ab4","rule":"K2","key":"internal/execution.MapIncrErr/*, internal/execution.MapIterIncrErr/*","what":"fixed: property=C12 f9c3ab4 MapIncrErr*/MapIterIncrErr* (all 15 types) stored a[i] = x where MapIncr/MapIterIncr do a[i] += fn(a[i]) (also C17, C07; DESIGN finding 36)"},
  {"property":"C06","commit":"5c3ad09","rule":"K2","key":"internal/execution.DivIterIncr{,SV,VS}/int:*","what":"fixed: property=C06 5c3ad09 integer DivIterIncr/DivIterIncrSV/DivIterIncrVS zeroed incr[i] through an operand's iterator index instead of the increment's own (also C07, C17; found by K2/K7 index pairing)"},
 ]
